@@ -315,6 +315,20 @@ func (x *Exec) applyUse(ce *Env, ui int, uc Clause, tag string) {
 		if !ok {
 			unsupported("%s: use clause must be a lemma application", uc.Line)
 		}
+		if fid, ok := call.Fun.(*ast.Ident); ok && fid.Name == "forall" && len(call.Args) == 4 {
+			// use forall(k, lo, hi, lemma(args)): one instantiation per k of a constant range
+			kid, ok1 := call.Args[0].(*ast.Ident)
+			lo, ok2 := x.simplifyWithPC(ce.st, ce.toIntTerm(ce.expr(call.Args[1]))).Int64()
+			hi, ok3 := x.simplifyWithPC(ce.st, ce.toIntTerm(ce.expr(call.Args[2]))).Int64()
+			if !ok1 || !ok2 || !ok3 || hi-lo > 512 {
+				unsupported("%s: use forall needs a constant range", uc.Line)
+			}
+			for k := lo; k < hi; k++ {
+				sub := ce.sub(map[string]Value{kid.Name: Scalar{IntC(k), intT}})
+				x.applyUse(sub, ui*1000+int(k-lo), Clause{Text: uc.Text, Expr: call.Args[3], Line: uc.Line}, tag)
+			}
+			return
+		}
 		var id *ast.Ident
 		switch f := call.Fun.(type) {
 		case *ast.Ident:
